@@ -383,9 +383,9 @@ def showOutcome : Outcome → String
   | .unmodelled => "?"
 
 open TraitsVerif.Model.FuncIndex in
-/-- ops: `new k`, `validate k`, `delegate p`, `property g s v hv`, `post b`, `default k`, `probe`. -/
+/-- ops: `new k`, `validate k`, `delegate p`, `property g s v hv`, `post b`, `default k`, `probe`, `dprobe`. -/
 def handleT (ops : String) : String :=
-  let rec go (t : Option Raw) (probe : Bool) : List String → String
+  let rec go (t : Option Raw) (probe : Nat) : List String → String
     | [] =>
       match t with
       | none => "none"
@@ -398,7 +398,8 @@ def handleT (ops : String) : String :=
             | some t' => if t' = t then "same" else "differs"
             | none => "setstate-out-of-table"
           s!"idx {i.getattr} {i.setattr} {i.postSetattr} {i.validate} {i.delegateAttrName} {rt}" ++
-            (if probe then s!" probe={showOutcome (probeGet r)},{showOutcome (probeSet r)},{showOutcome (probeDel r)}"
+            (if probe = 1 then s!" probe={showOutcome (probeGet r)},{showOutcome (probeSet r)},{showOutcome (probeDel r)}"
+             else if probe = 2 then s!" dprobe={showOutcome (probeDelegated r).1},{showOutcome (probeDelegated r).2}"
              else "")
     | op :: ops =>
       match words op, t with
@@ -416,7 +417,8 @@ def handleT (ops : String) : String :=
         | none => "bad-case"
       | ["delegate", p], some r =>
         match int? p with
-        | some p => go ((apply r.fns (.delegate p)).map (fun t => { r with fns := t, delegated := true })) probe ops
+        | some p => go ((apply r.fns (.delegate p)).map
+            (fun t => { r with fns := t, delegated := true, prefixType := clampPrefixType p })) probe ops
         | none => "bad-case"
       | ["property", g, s, v, hv], some r =>
         match int? g, int? s, int? v with
@@ -430,9 +432,10 @@ def handleT (ops : String) : String :=
         match int? k with
         | some k => if defaultValueTypeOk k then go (some { r with dvt := k.toNat }) probe ops else "err ValueError"
         | none => "bad-case"
-      | ["probe"], some r => go (some r) true ops
+      | ["probe"], some r => go (some r) 1 ops
+      | ["dprobe"], some r => go (some r) 2 ops
       | _, _ => "bad-case"
-  go none false (fields ops ";")
+  go none 0 (fields ops ";")
 
 /-! ## `R`: reference ledger -/
 
